@@ -36,6 +36,16 @@ int mapped_b(int x) { x = inl_core(x) - 2;
   return x + 9; }
 #line 40 "/home/u/.cargo/registry/src/index.crates.io-6f17d22bba15001f/demo-dep-1.2.3/src/other.rs"
 int mapped_c(int x) { return x * 11 + 3; }
+#line 7 "/rustc/c8dfcfe046a7680554bf4eb612bad840e7631c4b/library/core/src/fmt:rt.rs"
+static inline __attribute__((always_inline)) int inl_colon(int x) { x = x * 13 + 7;
+  return x ^ (x >> 2); }
+int mapped_d(int x) { x = inl_colon(x) + 1;
+  return x * 3; }
+#line 3 "/home/u/.cargo/registry/src/index.crates.io-6f17d22bba15001f/demo-dep-1.2.3/src/we:ird.rs"
+int mapped_e(int x) { x = inl_colon(x) - 4;
+  return x + x / 3; }
+#line 9 "/src/mapped/odd:name.c"
+int mapped_f(int x) { return inl_core(x) * 5 + 1; }
 """
 
 GEN_MODULES = [("genmod1.so", "AAAA0000BBBB1111CCCC2222DDDD33330"), ("genmod2", "0123456789ABCDEF0123456789ABCDEF1"),
